@@ -272,6 +272,11 @@ class SolverRoles:
         self.solved = rets[0]
         # solving set: tested with `not in` in the UnmetDependency handler
         ss = [a for a, vs_ in assigns.items() if isinstance(vs_[0], ast.Call) and call_name(vs_[0]) == 'set' and not vs_[0].args]
+        if len(set(ss)) > 1:
+            # several sets: the solving set is the one the UnmetDependency handler tests the dependency against
+            tested = {self_attr(c.comparators[0]) for c in ast.walk(self.handlers['UnmetDependency']) if isinstance(c, ast.Compare) and len(c.ops) == 1
+                      and isinstance(c.ops[0], (ast.NotIn, ast.In)) and self_attr(c.comparators[0]) in ss}
+            ss = sorted(tested)
         if len(set(ss)) != 1:
             raise AnalysisError(f'{rel}: solving set not identified ({ss})')
         self.solving = ss[0]
